@@ -1450,6 +1450,7 @@ class Fxp():
     # bit level operators
 
     def __rshift__(self, n):
+        n = int(n)  # (numpy integers would impose their type on the sizes)
         if self.config.shifting == 'expand':
             min_pow2 = utils.min_pow2(self.val)     # minimum power of 2 in raw val
             if min_pow2 is not None and n > min_pow2:
@@ -1467,6 +1468,7 @@ class Fxp():
     __irshift__ = __rshift__
 
     def __lshift__(self, n):
+        n = int(n)  # (numpy integers would impose their type on the sizes)
         if self.config.shifting == 'expand':
             n_word = max(self.n_word, int(np.max(np.ceil(np.log2(np.abs(self.val)+0.5)))) + self.signed + n)
         else:
